@@ -1,4 +1,4 @@
-import SqlgrepModel.Lemmas.AggTotal
+import SqlgrepModel.Lemmas.AggMerge
 /-
 C15 — order-insensitive aggregates ignore line order and how the input is split.
 
@@ -118,17 +118,32 @@ theorem concat_max_combines (x : Value) (xs : List Value) (y : Value) (ys : List
   have := extreme_append false x xs y ys
   simpa using this
 
-/- Full statement (`agg_concat_merge`): `table O q (r₁ ++ r₂) = mergeByKey q (table O q r₁) (table O q r₂)` for statements
-   whose select list consists of key columns, counts, sums, minima and maxima. Proved above in the form
-   `agg_concat_merge_partial` = the conjunction of its ingredients (rows, group set, group rows / argument values,
-   and the per-aggregate homomorphisms); what is missing is the definition of `mergeByKey` on printed tables (which
-   column is a key, which combines how) and the bookkeeping that assembles the ingredients row by row. The harness
-   evaluates exactly that assembled relation on the implementation (c15.rs, `merge`). -/
+/-- **`agg_concat_merge`.** For every statement made of key columns, COUNT(*), COUNT(c), SUM over INT, MIN and MAX (any
+GROUP BY, any WHERE; no arithmetic wrapper, HAVING, DISTINCT, LIMIT — `MergeableStmt`) and every two inputs `r₁`, `r₂`:
+whenever the specification fixes the three tables, the table over `r₁ ++ r₂` is the key-wise combination `mergeKeyed`
+of the tables over `r₁` and `r₂` — the set of groups is the union (ascending, each once), a group present in both
+parts combines cell by cell (`mergeCell`: counts and sums add with NULL neutral, minima and maxima combine with NULL
+neutral, key columns stay), a group present in one part keeps its row. Tables are taken with the group key attached
+(`T.map (·.2)` are the tables themselves). `hint` = the SUM arguments are INT (for REAL the property's exactness
+proviso would be needed: see `concat_sum_adds_real`). -/
+theorem agg_concat_merge {O : Oracles} {q : AggStmt} (hm : MergeableStmt q) (r₁ r₂ : List Env) {t t₁ t₂ : List (List Value)}
+    (h : table O q (r₁ ++ r₂) = some t) (h₁ : table O q r₁ = some t₁) (h₂ : table O q r₂ = some t₂)
+    (hint : ∀ k₁ k₂, keyedRows O q r₁ = some k₁ → keyedRows O q r₂ = some k₂ →
+      ∀ k, ∀ item ∈ q.items, ∀ e v1 v2, item.kind = .sum e → arguments O q item.kind (rowsOfKey k k₁) = some v1 →
+        arguments O q item.kind (rowsOfKey k k₂) = some v2 → (ints (nonNull v1)).isSome ∧ (ints (nonNull v2)).isSome) :
+    ∃ T T₁ T₂, t = T.map (·.2) ∧ t₁ = T₁.map (·.2) ∧ t₂ = T₂.map (·.2) ∧ T = mergeKeyed q T₁ T₂ :=
+  table_concat_merge hm r₁ r₂ h h₁ h₂ hint
 
-/-- **`agg_concat_merge` (ingredients)**: for inputs `r₁`, `r₂` with admitted rows `k₁`, `k₂`: the admitted rows of
+/-- per aggregate: the value over the concatenation of two argument lists is the combination of the values over the parts -/
+theorem aggregate_concat_merges (k : AggKind) (hk : mergeable k = true) (v₁ v₂ : List Value) {a b r : Value}
+    (h₁ : aggregate k v₁ = some a) (h₂ : aggregate k v₂ = some b) (h : aggregate k (v₁ ++ v₂) = some r)
+    (hint : ∀ e, k = .sum e → (ints (nonNull v₁)).isSome ∧ (ints (nonNull v₂)).isSome) :
+    r = mergeCell k a b := aggregate_merge k hk v₁ v₂ h₁ h₂ h hint
+
+/-- the ingredients on their own (any statement): for inputs `r₁`, `r₂` with admitted rows `k₁`, `k₂`: the admitted rows of
 `r₁ ++ r₂` are `k₁ ++ k₂`; a key is a group of the whole iff it is a group of a part; and the rows of each group are
 the concatenation of its rows in the parts. -/
-theorem agg_concat_merge_partial (O : Oracles) (q : AggStmt) (r₁ r₂ : List Env) {k₁ k₂ : List (List Value × Env)}
+theorem concat_ingredients (O : Oracles) (q : AggStmt) (r₁ r₂ : List Env) {k₁ k₂ : List (List Value × Env)}
     (h₁ : keyedRows O q r₁ = some k₁) (h₂ : keyedRows O q r₂ = some k₂)
     (hex : KeysExact ((k₁ ++ k₂).map (·.1))) :
     keyedRows O q (r₁ ++ r₂) = some (k₁ ++ k₂) ∧
@@ -164,5 +179,21 @@ example (O : Oracles) (keyed : List (List Value × Env)) : PermSafe O exCount ke
   refine ⟨?_, ?_⟩
   · intro kind hk; simp [slotKinds, exCount] at hk; subst hk; rfl
   · intro k kind vs hk _; simp [slotKinds, exCount] at hk; subst hk; exact ⟨by simp [usesOrder], by simp [usesSums]⟩
+
+/-- `SELECT COUNT(*), SUM(v), MIN(v) FROM t` is a `MergeableStmt`, and the combination of the rows `[2, 4, 1]` and `[1, 5, 5]`
+of two parts is `[3, 9, 1]` -/
+def exMerge : AggStmt :=
+  { items := [{ name := "count0", kind := .count none false, transform := none },
+              { name := "sum1", kind := .sum (.column "v"), transform := none },
+              { name := "min2", kind := .min (.column "v"), transform := none }],
+    filter := none, groupBy := none, having := none, havingAggs := [], havingKeys := [], havingVisit := [],
+    limit := none, distinct := false }
+example : MergeableStmt exMerge := by
+  refine ⟨?_, rfl, rfl, rfl⟩
+  intro item hi
+  simp [exMerge] at hi
+  rcases hi with rfl | rfl | rfl <;> exact ⟨rfl, rfl⟩
+example : mergeKeyed exMerge [([.null], [.int 2, .int 4, .int 1])] [([.null], [.int 1, .int 5, .int 5])] =
+    [([.null], [.int 3, .int 9, .int 1])] := rfl
 
 end Sqlgrep.Props.C15
